@@ -485,3 +485,17 @@ package helper
 //@ loop#0 invariant c.hasHeader ==> csvfpr(csvReader) >= 0 && (forall j :: 0 <= j && j < len(c.columns) ==> c.columns[j].ColumnIndex < csvfpr(csvReader))
 //@ loop#0 decreases extrem(csvReader)
 //@ loop#1 invariant !closed(rows)
+
+// ---- CSV files: a write replaces the file, an append keeps what is there (C11), relative to os.OpenFile flag semantics
+//@ func Csv.writeToWriter
+//@ trusted reflection-based encoding of rows (getReflectValue, encoding/csv.Writer): outside the verifier's subset
+//@ requires consumed(rows) == 0
+//@ ensures result == nil ==> consumed(rows) == len(rows)
+
+//@ func Csv.WriteToFile
+//@ requires consumed(rows) == 0
+//@ guarantees[C11] "write-replaces-previous-content" result == nil ==> ftrunc(res(os_OpenFile, 0, 0)) == 1 && fappend(res(os_OpenFile, 0, 0)) == 0
+
+//@ func Csv.AppendToFile
+//@ requires consumed(rows) == 0
+//@ guarantees[C11] "append-keeps-existing-rows" result == nil ==> fappend(res(os_OpenFile, 0, 0)) == 1 && ftrunc(res(os_OpenFile, 0, 0)) == 0
